@@ -589,3 +589,46 @@ def summ_setting_valid(interp, func, args, kwargs):
 
 
 MODULAR['K1'] = {'AnsiSetting.valid': summ_setting_valid}
+
+
+_NONFINAL = {}
+
+
+def twin_all_nonfinal(interp, func, args, kwargs):
+    """spec.all_nonfinal on a text of symbolic length: a boolean b with  b -> forall j. not final(t[j])  and
+    not b -> final(t[w]) for a witness position w (definitional extension, no assumption about the program)"""
+    t = args[0]
+    if isinstance(t, str) or not sym.is_str(t) or sym.s_chars(t) is not None:
+        return NotImplemented
+    at = sym.atoms_of(t)
+    if all(a[0] in ('lit', 'istr', 'chr') for a in at):
+        conds = []
+        for a in at:
+            if a[0] == 'lit':
+                if any(0x40 <= ord(ch) <= 0x7e for ch in a[1]):
+                    return False
+            elif a[0] == 'chr':
+                conds.append(sym.b_or(sym.i_cmp('<', a[1], 0x40), sym.i_cmp('>', a[1], 0x7e)))
+        return sym.b_and(*conds)   # str(int) consists of digits and '-' only
+    if len(at) != 1 or at[0][0] != 'opq':
+        return NotImplemented
+    c = ctx()
+    _, T, lo, hi = at[0]
+    key = (T.name, sym._lin(lo), sym._lin(hi))
+    if key not in _NONFINAL:
+        k = len(_NONFINAL)
+        _NONFINAL[key] = (z3.Bool('all_nonfinal!%d' % k), sym.int_const('final_at!%d' % k))
+    b, w = _NONFINAL[key]
+    T.chars_used = True
+
+    def final(p):
+        cp = z3.Select(T.chars, sym.Z(p))
+        return z3.And(cp >= 0x40, cp <= 0x7e)
+    j = z3.Int('j!nonfinal')
+    c.axiom_once(('nonfinal', key), lambda: [
+        z3.Implies(b, z3.ForAll([j], z3.Implies(z3.And(j >= sym.Z(lo), j < sym.Z(hi)), z3.Not(final(sym.atom(j)))))),
+        z3.Implies(z3.Not(b), z3.And(sym.Z(w) >= sym.Z(lo), sym.Z(w) < sym.Z(hi), final(w)))])
+    return b
+
+
+DEFAULT['all_nonfinal'] = twin_all_nonfinal
